@@ -1,7 +1,8 @@
 (** * C02 — Scores form a probability distribution after any number of iterations. *)
 From Coq Require Import List Arith Bool ZArith Reals.
 From ET Require Import Model.Scalar Model.Sparse Model.Basic Proofs.SparseBase Proofs.VectorProofs Proofs.RInst Proofs.BasicProofs
-  Proofs.ComputeProofs Proofs.Analytic Proofs.AnalyticModel Proofs.AnalyticTop.
+  Proofs.ComputeProofs Proofs.Analytic Proofs.AnalyticModel Proofs.AnalyticTop Proofs.ScaleRound Proofs.RoundNonneg.
+From Flocq Require Raux Zaux.
 Import ListNotations.
 Local Open Scope R_scope.
 
@@ -45,13 +46,43 @@ Print Assumptions C02_canon_tv_distribution.
     strictly increasing in-range indices, zero products dropped *)
 Theorem C02_mulvec_shape :
   forall (S : ScalarOps) (m : csm S) (v1 r : vec S), mulvec m v1 = Ok r -> vdim r = major m /\ WFv r.
-Proof.
-  intros S m v1 r H. pose proof (mulvec_spec m v1) as Hs. rewrite H in Hs.
-  destruct Hs as (_ & _ & Hd & W & _). split; assumption.
-Qed.
+Proof. exact @mulvec_shape. Qed.
 Print Assumptions C02_mulvec_shape.
+
+(** (rounded arithmetic) "finite non-negative entries" beyond the reals.  In the instance [RND rnd] of the
+    same model — every operation is the exact operation followed by a rounding of relative error at most
+    [u <= 2^-10] — the compensated sum of non-negative terms is non-negative as long as [8 u] times the
+    number of terms stays below 1/2 (the compensation term may be negative, but never outweighs the sum) *)
+Theorem C02_kbn_nonneg_rounded :
+  forall (rnd : R -> R) (u : R), 0 <= u -> u <= /1024 ->
+    (forall x, exists eps, Rabs eps <= u /\ rnd x = x * (1 + eps)) ->
+    forall l : list R, Forall (fun x => 0 <= x) l -> INR (length l) * (8 * u) <= /2 ->
+      0 <= @kbn_total (RND rnd) l.
+Proof. exact kbn_total_nonneg. Qed.
+Print Assumptions C02_kbn_nonneg_rounded.
+
+(** ... hence every score that Compute returns is non-negative, for every non-negative local trust,
+    pre-trust and start vector (canonical or not), every alpha, epsilon, schedule, iteration limit and
+    flat-tail setting, on graphs of up to 2^49 peers: in binary64 arithmetic without the exponent range
+    ([B64], round-to-nearest-even to 53 bits), i.e. absent overflow and underflow.  [Proofs/F64Round.v]
+    relates [B64] to the primitive floats operation by operation. *)
+Theorem C02_scores_nonneg_rounded_binary64 :
+  forall fuel (c : csm B64) (p : vec B64) (a e : R) (o : opts B64) (t : vec B64) k st,
+    WFm c -> Forall (nn) (rows c) -> WFv p -> nn (vents p) ->
+    (forall t0, o_t0 o = Some t0 -> WFv t0 /\ nn (vents t0)) ->
+    INR (major c) <= Raux.bpow Zaux.radix2 49 ->
+    @compute B64 fuel c p a e o = Done t k st -> nn (vents t).
+Proof. exact compute_nonneg_B64. Qed.
+Print Assumptions C02_scores_nonneg_rounded_binary64.
+
+Theorem C02_scores_nonneg_premises_example :
+  let c : csm B64 := {| major := 1; minor := 1; rows := [[(0%nat, 1 : B64)]] |} in
+  let p : vec B64 := {| vdim := 1; vents := [(0%nat, 1 : B64)] |} in
+  WFm c /\ Forall (nn) (rows c) /\ WFv p /\ nn (vents p) /\ INR (major c) <= Raux.bpow Zaux.radix2 49.
+Proof. exact compute_nonneg_B64_premises. Qed.
 
 (** PARTIAL: the API-level clause ("every accepted request without negative
     trust values yields scores that sum to 1") needs distinct coordinates: a
     request with a duplicated (i,j) is accepted and leaks mass (known finding);
-    for binary64 "within rounding" is decided per run by an exact-integer sum. *)
+    for binary64 non-negativity is now a theorem (above, absent overflow/underflow); "sums to 1
+    within rounding" is decided per run by an exact-integer sum. *)
